@@ -5,6 +5,7 @@ from __future__ import annotations
 import itertools
 import os
 import re
+import time
 
 from ..core import Check, classify_exc
 from ..g import g_Z, g_list, g_opt, g_str
@@ -1024,7 +1025,7 @@ def gen_expr_cases(ck):
         w = rng.choice(["increment", "decrement", "capture"])
         return ("capture" if w == "capture" else "ident"), ("ident", n), ident_toks(n), w
 
-    for _ in range(2500 if ck.quick else 25000):
+    for _ in range(800 if ck.quick else 8000):
         kind, tree, toks, wrap = one()
         if rng.random() < 0.12 and len(toks) > 1:           # a damaged source: the parsers must agree on accepting it or not
             i = rng.randrange(len(toks))
@@ -1058,6 +1059,9 @@ CORPUS = [
     "{% cycle 'g': 1, 2 %}{% cycle g: 1, 2 %}{% cycle 'h': 1, 2 %}",
     "{% tablerow i in l cols:2 %}{{ i }}{% endtablerow %}", "{% for i in l %}{% ifchanged %}{{ i }}{% endifchanged %}{% endfor %}",
     "{% raw %}{{ x }}{% endraw %}", "{{ x if not a and b else 'z' }}", "{{ x if (a or b) and c }}",
+    "{{ d['if'] }}", "{{ d['empty'].limit }}", "{% increment ['a b'] %}", "{% assign ['a b'] = 1 %}{{ a }}", "{% for ['a b'] in l %}{{ i }}{% endfor %}",
+    "{% capture ['if'] %}x{% endcapture %}", "{% render ['a b'] %}", "{% include 'p' with a? %}", "{% render 'p' for 1x as y %}", "{{ x | append: a? }}",
+    "{{ x | default: 1x, allow_false: true }}", "{{ 0.00001 }}", "{{ x | plus: 100000000000000000000.0 }}", "{% for i in l offset:continue %}{{ i }}{% endfor %}",
 ]
 
 
@@ -1067,20 +1071,30 @@ def run(ck: Check) -> None:
         "(depth<=3/4, comparisons with parenthesised operands, empty/blank) inside {% if %}; B: every string value of length <=3/4 over "
         "{a space ' \" \\ newline { % } n e-acute} (not both quotes) as a literal in an output statement; C: every block and inline tag alone "
         "and nested, plus seeded random tag trees (depth<=2/3) with raw/comment/text/output; E: every pair of names from a pool with awkward spellings as root/second segment, bare and bracketed, plus seeded random paths with indexes and nested paths; D: seeded random rich templates (filters, ternaries, "
-        "bracketed/quoted/nested paths, ranges, whitespace control, liquid tag, include/render). Every case is checked on the implementation "
-        "(str() parses; renders equal on 4 data sets; str of the re-parse is the same text); A-C and E are also evaluated in the Coq model. "
+        "bracketed/quoted/nested paths, ranges, whitespace control, liquid tag, include/render); F: seeded random expression payloads of output/echo, assign, "
+        "for/tablerow, case, when, cycle, include, render, capture/increment/decrement (filters with positional/keyword arguments, ternaries with condition trees, "
+        "ranges, nested/quoted/keyword-named paths, floats, sloppy commas, offset:continue, 12% damaged by one token) as SOURCE TOKENS: the model parses and prints "
+        "them, str() of the same source is tokenised, compared inside Coq (also: the generated tree printed by the model; parse-print-parse-print; every parsed tree "
+        "without nil is well formed). Every case is checked on the implementation "
+        "(str() parses; renders equal on 4 data sets; str of the re-parse is the same text); A-C, E and F are also evaluated in the Coq model. "
         "Non-trivial = the original source parses; distinct = distinct source."
     )
     ck.exhaustive = True
     ck.trusted_base = [
         "Coq 8.16.1 kernel + vm_compute",
-        "harness: generators, tokenisers of the serialised text (conditions, tag level), Gallina printers (props/c04.py, c12 operand table)",
-        "modelled not verified: the expression tokenizer for the generated vocabulary, the template lexer (tag-level tokens are taken as given; C10), "
-        "paths, filters, arguments and ternaries are opaque payloads of the structure model (their round trip is checked on the implementation only)",
+        "harness: generators, tokenisers of the serialised text (conditions, tag level, expressions: a re-statement of the expression lexer's rules), "
+        "float_canon (shortest positional spelling of a float), Gallina printers (props/c04.py, c12 operand table)",
+        "modelled not verified: the expression lexer (tokens are taken as given: a keyword is never a word, a string has one kind of quote; which characters "
+        "RE_PROPERTY / \\w accept beyond ASCII), the template lexer (tag-level tokens are taken as given; C10); the condition of a ternary is in the vocabulary "
+        "of the condition model (an operand is one token); that every tree the parser builds without nil is well formed is evaluated on the generated sources "
+        "(run_xwf), not proved; expression payloads are opaque to the tag-structure model (TagTree) and the two are not composed into one parser",
     ]
-    ck.assumptions = ["default delimiters; logical_not_operator, logical_parentheses and ternary_expressions enabled; the nil/null literal is the "
-                      "recorded known finding (its serialisation to '' is pinned by the existing tests)"]
+    ck.assumptions = ["default delimiters; strict mode, no shorthand indexes, no keyword assignment; logical_not_operator, logical_parentheses and "
+                      "ternary_expressions enabled; the nil/null literal is the recorded known finding (its serialisation to '' is pinned by the existing tests)"]
+    t00 = time.time()
     ck.proof()
+    if os.environ.get("VERIF_TIMING"):
+        print(f"proof: {time.time() - t00:.1f}s", flush=True)
     counter = [0]
 
     for src in CORPUS:
@@ -1221,7 +1235,7 @@ def run(ck: Check) -> None:
             case = "{| xc_kind := " + KIND[kind] + "; xc_toks := " + g_list(g_etok(t) for t in toks) + " |}"
             if rejected:
                 xcases.append(case)
-                xexp.append("None")
+                xexp.append("(None, true)")
                 xmeta.append((src, None))
                 continue
             if r:
@@ -1234,7 +1248,8 @@ def run(ck: Check) -> None:
                              {"type": "roundtrip", "template": src, "str": s, "broken": "correspondence ExprSyntax.run_xprint ~ __str__ of the expression classes"}, no_input=True)
                 continue
             xcases.append(case)
-            xexp.append("Some " + g_list(otoks))
+            # the second round is compared where the implementation round-trips (not where the recorded nil finding breaks it)
+            xexp.append("(Some " + g_list(otoks) + ", " + ("true" if r is None else "false") + ")")
             xmeta.append((src, s))
             if tree is not None:
                 ycases.append("{| yc_payload := " + g_payload(tree) + " |}")
@@ -1242,13 +1257,10 @@ def run(ck: Check) -> None:
                 ymeta.append((src, s))
         ck.sample({"template": xmeta[len(xmeta) // 3][0], "str": xmeta[len(xmeta) // 3][1]})
         for name, fn, eqb, ctype, otype, cs, ex, meta_, what in (
-                ("xprint", "run_xprint", "run_xprint_eqb", "xcase", "option (list etok)", xcases, xexp, xmeta, "parser + serialiser"),
-                ("xreprint", "run_xreprint", "run_xprint_eqb", "xcase", "option (list etok)", xcases, xexp, xmeta, "parse, serialise, parse again, serialise"),
+                ("xall", "run_xall", "xall_eqb", "xcase", "option (list etok) * bool", xcases, xexp, xmeta,
+                 "parser + serialiser on the source tokens; second round; well-formedness of the parsed tree"),
                 ("yprint", "run_yprint", "list_eqb etok_eqb", "ycase", "list etok", ycases, yexp, ymeta, "serialiser on the generated tree")):
-            if name == "xreprint":   # where str() does not parse back (the recorded nil finding) the model's second parse fails too: compared where it round-trips
-                keep = [i for i, (src_, s_) in enumerate(meta_) if s_ is None or roundtrip(src_) is None]
-                cs, ex, meta_ = [cs[i] for i in keep], [ex[i] for i in keep], [meta_[i] for i in keep]
-            mm = ck.coq_mismatches(name, IMPORTS, fn, eqb, ctype, otype, cs, ex, chunk=250)
+            mm = ck.coq_mismatches(name, "PyPrims Cond CondPrint ExprSyntax", fn, eqb, ctype, otype, cs, ex, chunk=200)
             ck.traces += len(cs)
             for i in mm[:3]:
                 src, s = meta_[i]
@@ -1256,7 +1268,6 @@ def run(ck: Check) -> None:
                 ck.violation("correspondence", f"c04-expression-{name}-correspondence", f"model ExprSyntax.{fn} ({what}) and the implementation disagree on {src!r}: str() = {s!r}",
                              {"type": "roundtrip", "template": src, "str": s, "model": model[:2000],
                               "broken": f"correspondence ExprSyntax.{fn} ~ parse/__str__ of the expression classes (theorems C04_expression_roundtrip, C04_expression_idempotent)"}, no_input=True)
-
 
     def layer_D():
         parsed = 0
@@ -1275,7 +1286,10 @@ def run(ck: Check) -> None:
 
     for name, fn in (("A", layer_A), ("B", layer_B), ("E", layer_E), ("C", layer_C), ("F", layer_F), ("D", layer_D)):
         if not only or name in only:
+            t0 = time.time()
             fn()
+            if os.environ.get("VERIF_TIMING"):
+                print(f"layer {name}: {time.time() - t0:.1f}s", flush=True)
 
 
 def replay(data) -> int:
